@@ -114,6 +114,12 @@ func classify(c *Case) (bool, []string) {
 	add(c.InStream, "written-inside-open-stream")
 	add(c.InStream && o.n > maxFan, "written-inside-open-stream>64")
 	add(c.InStream && o.n > maxFan*maxFan, "written-inside-open-stream>4096")
+	for _, k := range []string{"all-negative", "all-nonnegative", "mixed-sign"} {
+		add(o.flags[k], k)
+		add(o.flags[k] && o.n > maxFan, k+">64")
+		add(o.flags[k] && o.n > maxFan*maxFan, k+">4096")
+	}
+	add(o.flags["negative-block>=4096-then-more"], "negative-block>=4096-then-more")
 	for _, k := range []string{"empty-name-key", "non-ascii-key", "nul-in-key", "prefix-neighbours", "adjacent-keys",
 		"last-byte-differs", "min-int64-key", "max-int64-key", "negative-key", "zero-key", "consecutive-ints",
 		"value-null", "value-ref", "value-null-inside", "value-ref-inside",
@@ -128,7 +134,7 @@ func classify(c *Case) (bool, []string) {
 }
 
 func render(c *Case) any {
-	return map[string]any{"tree": c.Tree, "n": c.obs.n, "style": c.Style, "leaves": c.obs.leaves, "depth": c.obs.depth,
+	return map[string]any{"tree": c.Tree, "n": c.obs.n, "style": c.Style, "sign": c.Sign, "leaves": c.obs.leaves, "depth": c.obs.depth,
 		"use_map": c.UseMap, "in_stream": c.InStream, "lookups_file": c.obs.probesFile, "lookups_memory": c.obs.probesMem,
 		"gaps_probed": c.obs.gapProbes, "gaps_between_leaves": c.obs.betweenLeaves,
 		"extra": fmt.Sprintf("%d names, %d nums", len(c.ExtraNames), len(c.ExtraNums))}
@@ -146,3 +152,64 @@ var treeProp = &vt.Prop[Case]{
 func init() { vt.Register(treeProp) }
 
 func TestRandom(t *testing.T) { treeProp.Run(t, vt.NewStats(property, "random")) }
+
+// TestNumSigns enumerates number trees by sign regime of their keys: all
+// negative, all non-negative, mixed, and a block of at least 4096 negative
+// keys followed by more keys; sizes cross the leaf size 64 and (once per
+// regime in the thorough tier, twice in all in the quick tier) its square.
+// No rapid: regimes x placements x sizes are enumerated, the seeds derive
+// from the process seed.
+func TestNumSigns(t *testing.T) {
+	st := vt.NewStats(property, "numtree")
+	sizes := []int{1, 2, 63, 64, 65, 66, 127, 128, 129, 200, 300}
+	if vt.Thorough() {
+		sizes = append(sizes, 100, 400, 700, 1000, 4095, 4096, 4097, 5000)
+	}
+	type item struct{ sign, place, n int }
+	var items []item
+	for _, sign := range []int{1, 2, 3} {
+		for place := 0; place < 3; place++ {
+			for _, n := range sizes {
+				items = append(items, item{sign, place, n})
+			}
+		}
+	}
+	// crossing 4096: all negative, and a negative block followed by more
+	items = append(items, item{1, 0, 4097}, item{4, 1, 4200})
+	if vt.Thorough() {
+		for place := 0; place < 3; place++ {
+			items = append(items, item{4, place, 4098}, item{4, place, 4300}, item{4, place, 5000})
+		}
+	}
+	rounds := vt.Scale(1, 4)
+	idx := 0
+	for round := 0; round < rounds; round++ {
+		for _, it := range items {
+			idx++
+			if !vt.Mine(idx) {
+				continue
+			}
+			c := Case{Tree: "num", N: it.n, Style: it.place, Sign: it.sign,
+				Seed:     vt.Seed()*1000003 + uint64(idx)*7919,
+				Pool:     []gen.O{{T: "int", I: int64(idx)}, {T: "null"}, {T: "name", S: gen.Hex("v")}},
+				Version:  idx % len(versions),
+				InStream: idx%3 == 1,
+			}
+			if idx%2 == 0 {
+				c.Edits = []Edit{{Kind: idx / 2 % 3, I: idx * 31, J: idx * 17}}
+				c.EditDirect = idx%4 == 0
+			}
+			err := vt.Guard(func() error { return checkCase(&c) })
+			_, classes := classify(&c)
+			// non-trivial here: an intermediate node exists and the regime
+			// is not the ordinary mixed one
+			st.Eval(vt.Hash(&c), c.obs.n > maxFan, classes...)
+			st.Sample(func() any { return render(&c) })
+			if err != nil {
+				vt.Violation(property, treeProp.Kind, &c, err.Error())
+				t.Fatalf("%v", err)
+			}
+		}
+	}
+	st.Note("enumerated %d sign-regime cases per round (regimes all-negative / all-non-negative / mixed x 3 placements x %d sizes, plus trees crossing 4096)", len(items), len(sizes))
+}
